@@ -72,6 +72,17 @@ func execProjectWarm(c *core.Ctx, worker string, p, warm *gen.Project, idx int, 
 		if err := warm.Write(wroot, paramSrc); err == nil {
 			args = append(args, "-warm-root", wroot, "-warm-args", strings.Join(warm.Args(), "|"))
 		}
+	} else if len(p.SelfWarm) > 0 {
+		// the same project files, another batch line (its own result folder), first in the same session
+		var wa []string
+		for _, a := range p.Args() {
+			if strings.HasPrefix(a, "resultfolder=") {
+				a += "w"
+			}
+			wa = append(wa, a)
+		}
+		wa = append(wa, p.SelfWarm...)
+		args = append(args, "-warm-root", root, "-warm-args", strings.Join(wa, "|"))
 	}
 	if skip != "" {
 		args = append(args, "-skip", skip)
